@@ -27,7 +27,7 @@ func (c09) Exhaustive(tier string) (bool, string) {
 	return tier == "thorough", "every string length 0..6184 and binary length 0..12328 (top level) in every content class"
 }
 
-var strClasses = []string{"ascii", "2byte", "3byte", "4byte", "mixed"}
+var strClasses = []string{"ascii", "2byte", "3byte", "4byte", "mixed", "asciitail", "asciihead"}
 
 func (c09) Cases(tier string, seed int64, kf *KnownFindings) []Case {
 	var cs []Case
@@ -177,6 +177,13 @@ func strOfClass(r *rand.Rand, class string, n int) string {
 			sb.WriteRune(c)
 		case "4byte":
 			sb.WriteRune(rune(0x10000 + r.Intn(0x100000)))
+		case "asciitail", "asciihead":
+			// ASCII except for the last one or two (the first) characters
+			if (class == "asciitail" && i >= n-1-n%2) || (class == "asciihead" && i == 0) {
+				sb.WriteRune([]rune{0xe9, 0x4e16, 0x1f600, 0x7ff}[r.Intn(4)])
+			} else {
+				sb.WriteByte(byte(' ' + r.Intn(95)))
+			}
 		default:
 			sb.WriteRune([]rune{'a', 0xe9, 0x4e16, 0x1f600, 'z', 0x7ff, 0x800, 0xffff, 0x10ffff}[r.Intn(9)])
 		}
@@ -396,6 +403,22 @@ func c09check(env *Env, res *Result, c Case, sub int, pos string, isBin bool, s 
 	judge("", o.Dec)
 	if pos == "top" || pos == "skew" {
 		return
+	}
+	// the same bytes (names taken from the value) decoded with the type map taken from the TYPE: both
+	// extractions must agree on the wire names of lists of strings and of byte slices
+	if pos == "elem" || pos == "field" {
+		var d3 interface{}
+		var e3 error
+		pi3, _ := Guard(func() { d3, e3 = hessian.ToObject(o.Wire, hessian.TypeMapOf(reflect.TypeOf(val))) })
+		switch {
+		case pi3 != nil:
+			viol(pi3.Class, "decode with TypeMapOf(type): panic "+pi3.Msg)
+		case e3 != nil:
+			viol("dec-error", "encoded with the name map of the value, decoded with TypeMapOf(type): "+e3.Error())
+		default:
+			judge("decoded with TypeMapOf(type): ", d3)
+		}
+		res.Count("typemapof_round_trips", 1)
 	}
 	// the same container through the other documented way of calling: no name map on the encoding side,
 	// only the classes registered on the decoding side (list and map types then come from the field types)
